@@ -8,6 +8,7 @@ LEAN_MODULES = ["ViaProofs.C11"]
 LEMMA_MODULES = ['ViaProofs.ConnLemmas']
 REQUIRED_THEOREMS = ['Via.C11_invariant_at_every_point', 'Via.C11_close_releases']
 LEVEL = "proof"
+LEVEL_TEXT = ("PROOF that the history invariant holds at every point at which shutdown / close / destruction can be issued and after every order of the completions that follow; memory safety of the C++ is observed (ASan, checked iterators, watchdog) on the same histories and on the real http_client's teardown incl. reconnection timers. Known findings C11-KF1/KF2.")
 TRUSTED_BASE = S.SIM_TRUSTED
 ASSUMPTIONS = S.SIM_ASSUMPTIONS
 compare = S.compare
